@@ -237,8 +237,20 @@ fn gen_scenario(rng: &mut Rng) -> Scenario {
         }
         script.sort_by_key(|(s, _)| *s);
     }
+    let lport_eph = rng.chance(1, 6);
+    if !lport_eph && rng.chance(1, 4) {
+        // a small ephemeral range: the connectors of one host wrap the port counter while earlier streams are
+        // still open (there is always one port more than connectors)
+        let span = n as u16 + rng.range(0, 2) as u16;
+        cfg.ephemeral = Some((50_000, 50_000 + span));
+        for c in conns.iter_mut() {
+            if rng.chance(1, 3) {
+                c.hold = 40 + rng.range(0, 40) as u16;
+            }
+        }
+    }
     let lo4 = cfg.ipv6 && rng.chance(1, 3) && !lops.iter().any(|o| matches!(o, LOp::Bind { localhost: true }));
-    Scenario { cfg, guarded, hosts, lops, conns, script, lport_eph: rng.chance(1, 6), lo4 }
+    Scenario { cfg, guarded, hosts, lops, conns, script, lport_eph, lo4 }
 }
 
 // ------------------------------------------------------------------------------------------------
